@@ -159,11 +159,6 @@ theorem rawIterFrom_of_getOp {s : Bytes} {o : Nat} {d rest : Bytes} (hg : getOp 
   · simp [getOp] at hg
   · rw [rawIterFrom_cons, hg]
 
-/-- opcode tokens for which the read-back laws are claimed (the property's 0x4f..0xff) -/
-def tokInDomain : Token → Prop
-  | .op n => 0x4f ≤ n
-  | _ => True
-
 theorem numEncode_ne_nil {z : Int} (h : z ≠ 0) : numEncode z ≠ [] := by
   intro hc
   have := numEncode_length z
@@ -172,7 +167,7 @@ theorem numEncode_ne_nil {z : Int} (h : z ≠ 0) : numEncode z ≠ [] := by
   rw [numLen_eq_zero_iff] at h2; omega
 
 /-- reading one built token back -/
-theorem readback_token (t : Token) (a : Bytes) (h : tokenBytes t = some a) (hd : tokInDomain t)
+theorem readback_token (t : Token) (a : Bytes) (h : tokenBytes t = some a) (hd : Token.inDomain t)
     (idx : Nat) (rest : Bytes) :
     ∃ idx', (rawIterFrom idx (a ++ rest)).1.map cookTok =
         canonTok t :: (rawIterFrom idx' rest).1.map cookTok ∧
@@ -186,7 +181,7 @@ theorem readback_token (t : Token) (a : Bytes) (h : tokenBytes t = some a) (hd :
     · rw [rawIterFrom_of_getOp hg]
   rcases t with n | z | d
   · -- opcode
-    simp only [tokInDomain] at hd
+    simp only [Token.inDomain] at hd
     simp only [tokenBytes] at h
     by_cases hn : n < 256
     · simp only [hn, if_true, Option.some.injEq] at h
@@ -242,7 +237,7 @@ theorem readback_token (t : Token) (a : Bytes) (h : tokenBytes t = some a) (hd :
 
 /-- reading a built script back: the canonical tokens, and no error -/
 theorem readback (ts : List Token) : ∀ (s : Bytes) (idx : Nat), Spec.Script.build ts = some s →
-    (∀ t ∈ ts, tokInDomain t) →
+    (∀ t ∈ ts, Token.inDomain t) →
     (rawIterFrom idx s).1.map cookTok = canon ts ∧ (rawIterFrom idx s).2 = none := by
   induction ts with
   | nil =>
@@ -264,9 +259,9 @@ theorem readback (ts : List Token) : ∀ (s : Bytes) (idx : Nat), Spec.Script.bu
         rw [e1, i1]; simp [canon]
 
 /-- rebuilding from the canonical token gives the same bytes -/
-theorem tokenBytes_canonTok (t : Token) (hd : tokInDomain t) : tokenBytes (canonTok t) = tokenBytes t := by
+theorem tokenBytes_canonTok (t : Token) (hd : Token.inDomain t) : tokenBytes (canonTok t) = tokenBytes t := by
   rcases t with n | z | d
-  · simp only [tokInDomain] at hd
+  · simp only [Token.inDomain] at hd
     by_cases h : 0x51 ≤ n ∧ n ≤ 0x60
     · have h1 : n < 256 := by omega
       have h2 : ¬ ((n - 0x50 : Nat) : Int) = 0 := by omega
@@ -286,7 +281,7 @@ theorem tokenBytes_canonTok (t : Token) (hd : tokInDomain t) : tokenBytes (canon
     · subst h; simp [canonTok, tokenBytes, pushEncode]
     · simp only [canonTok, h, if_false]
 
-theorem build_canon (ts : List Token) (hd : ∀ t ∈ ts, tokInDomain t) :
+theorem build_canon (ts : List Token) (hd : ∀ t ∈ ts, Token.inDomain t) :
     Spec.Script.build (canon ts) = Spec.Script.build ts := by
   induction ts with
   | nil => rfl
